@@ -319,7 +319,21 @@ impl ReplDriver {
                         continue;
                     }
                 }
+                let again = if self.rng.gen_bool(0.2) { Some(proof.clone()) } else { None };
                 self.apply_honest(&mut p, &req, proof, fc, &mut lin);
+                if let Some(dup) = again {
+                    // The same answer delivered a second time.  It is no longer a well-formed
+                    // answer (its upgrade does not start at the replica's length any more), so
+                    // it may be refused; if it is accepted it must behave like any accepted proof
+                    // (state, upgrade/have events).
+                    let mut meta = req.meta("proof");
+                    meta["dup"] = json!(true);
+                    let op = Op::Proof { proof: Box::new(dup), meta };
+                    self.d.cid = "r".into();
+                    self.d.run_ops(&mut p.r, lin.clone(), &[op.clone()], fc, fc.depth);
+                    lin.ops.push(op);
+                    self.rec().count("redeliveries", 1);
+                }
             }
         }
         self.complete_sync(&mut p, &mut lin);
